@@ -220,6 +220,21 @@ def build_with_lib(bits_tx, rtx, witness_ser):
         for i in rtx["ins"]
     ]
     txouts = [bits_tx.txout(o["value"], o["script"]) for o in rtx["outs"]]
+    if rtx["segwit"]:
+        # history: data of the same lengths as the witness items has just been assembled as ordinary script pushes (what
+        # signing a legacy input does with a redeem script of that size); the two length encodings differ above 75 bytes
+        import bits.script as _bs
+
+        seen = set()
+        for i in rtx["ins"]:
+            for item in i["witness"]:
+                n = len(item)
+                if 75 < n <= 70000 and n not in seen and len(seen) < 4:
+                    seen.add(n)
+                    try:
+                        _bs.script([bytes(item).hex()])
+                    except Exception:  # noqa: BLE001 - only a warm-up; what it returns or raises is judged elsewhere (C13)
+                        pass
     wits = [witness_ser(i["witness"]) for i in rtx["ins"]] if rtx["segwit"] else []
     return bits_tx.tx(txins, txouts, version=rtx["version"], locktime=rtx["locktime"], script_witnesses=wits)
 
